@@ -180,6 +180,13 @@ class SimExecutor:
         self.jobs = collections.deque(); self.done = collections.deque()
         self.idle = []; self.m_idle = None; self.joiners = []
         self.state = "run"; self._temp_folder_manager = _TFM(); self.running = {}
+        ex_ = self
+        # what LokyBackend.start_call looks at: size and shutdown flag of the executor it holds
+
+        class _Flags:
+            shutdown = property(lambda self_: ex_.state != "run")
+            broken = property(lambda self_: None)
+        self._flags = _Flags(); self._max_workers = n
         self.dead_workers = set(); self.inline_depth = 0
         k = obs.next_pool_index()
         me_ = s.me()
